@@ -443,12 +443,38 @@ theorem MemoSim.done {a b : Memo} (hs : MemoSim a b) {c : MId} {sw} (h : a.find 
     | none => simp [hb] at this
     | some sw' => exact ⟨sw', rfl⟩
 
+/-- the tensordict gives every submodule one sub-tensordict: whatever nested entry is addressed to module `c`
+(through any of its names, at any depth) is `pm c` — what `from_module` produces, and what makes the memo of
+`_to_module` harmless -/
+def ConsP (pm : MId → List (Name × PTree)) (h : Heap) : MId → List (Name × PTree) → Prop
+  | _, [] => True
+  | m, (_, .leaf _) :: r => ConsP pm h m r
+  | m, (k, .node es) :: r =>
+    (∀ c, Dict.get? (h m).kids k = some (some c) → es = pm c ∧ ConsP pm h c es) ∧ ConsP pm h m r
+
+def MemoP (pm : MId → List (Name × PTree)) (gm : Memo) : Prop := ∀ c sw, gm.find c = some (some sw) → sw = pm c
+
+theorem ConsP_kids (pm : MId → List (Name × PTree)) {h h' : Heap} (hk : ∀ c, (h' c).kids = (h c).kids) :
+    ∀ (es : List (Name × PTree)) (m : MId), ConsP pm h m es → ConsP pm h' m es
+  | [], _, _ => by simp [ConsP]
+  | (_, .leaf _) :: r, m, hc => by
+    simp only [ConsP] at hc ⊢; exact ConsP_kids pm hk r m hc
+  | (k, .node es) :: r, m, hc => by
+    simp only [ConsP] at hc ⊢
+    refine ⟨?_, ConsP_kids pm hk r m hc.2⟩
+    intro c hkc
+    rw [hk m] at hkc
+    obtain ⟨h1, h2⟩ := hc.1 c hkc
+    exact ⟨h1, ConsP_kids pm hk es c h2⟩
+
 /-- what the second (restoring) run achieves -/
 structure Back (h : Heap) (memo : Memo) (m : MId) (es : List (Name × PTree)) (memo1 : Memo)
-    (g1 : Heap) (gm1 : Memo) : Prop where
+    (g1 : Heap) (gm1 : Memo) (gm : Memo) (outs' : List (Name × PTree)) : Prop where
   sim : MemoSim memo1 gm1
   mods : ∀ c, memo.find c = none → memo1.find c ≠ none → ∀ n, cellAt g1 c n = cellAt h c n
   names : ∀ n, n ∈ leafKeys es → cellAt g1 m n = cellAt h m n
+  /-- when every submodule is given one sub-tensordict, the restoring run hands back the very tensordict that was put in -/
+  same : ∀ pm, ConsP pm h m es → MemoP pm gm → outs' = es ∧ MemoP pm gm1
 
 
 theorem find_ne_none_of_some {mm : Memo} {c : MId} {v} (h : mm.find c = some v) : mm.find c ≠ none := by
@@ -464,13 +490,13 @@ theorem swap_back : ∀ (es : List (Name × PTree)) (h : Heap) (memo : Memo) (m 
       (∀ c, memo.find c = none → memo1.find c ≠ none → ∀ n, cellAt g c n = cellAt h1 c n) →
       (∀ n, n ∈ leafKeys es → cellAt g m n = cellAt h1 m n) →
       (∀ c, (g c).kids = (h c).kids) →
-      ∃ g1 gm1 outs', swapEntries g gm m outs = .ok (g1, gm1, outs') ∧ Back h memo m es memo1 g1 gm1
+      ∃ g1 gm1 outs', swapEntries g gm m outs = .ok (g1, gm1, outs') ∧ Back h memo m es memo1 g1 gm1 gm outs'
   | [], h, memo, m, h1, memo1, outs, hr, _, _, _ => by
     intro g gm _ hsim _ _ _
     rw [swapEntries_nil] at hr
     injection hr with hr; injection hr with e1 hr; injection hr with e2 e3
     subst e1 e2 e3
-    refine ⟨g, gm, [], swapEntries_nil _ _ _, hsim, ?_, ?_⟩
+    refine ⟨g, gm, [], swapEntries_nil _ _ _, hsim, ?_, ?_, fun _ _ hmp => ⟨rfl, hmp⟩⟩
     · intro c h0 h1; exact absurd h0 h1
     · intro n hn; simp [leafKeys] at hn
   | (k, .leaf t) :: rest, h, memo, m, h1, memo1, outs, hr, hm, hwf, hnd => by
@@ -504,7 +530,16 @@ theorem swap_back : ∀ (es : List (Name × PTree)) (h : Heap) (memo : Memo) (m 
         · exact hkids c)
     obtain ⟨g1, gm1, outs2, hrun2, hb⟩ := ih
     have fr2 := swap_frame outs' (g.upd m md2) gm m g1 gm1 outs2 hrun2 hgm
-    refine ⟨g1, gm1, (k, .leaf t) :: outs2, swapEntries_leaf_intro hst2 hrun2, hb.sim, ?_, ?_⟩
+    refine ⟨g1, gm1, (k, .leaf t) :: outs2, swapEntries_leaf_intro hst2 hrun2, hb.sim, ?_, ?_, ?_⟩
+    rotate_right
+    · intro pm hc hmp
+      simp only [ConsP] at hc
+      have hkids' : ∀ c, ((h.upd m md) c).kids = (h c).kids := by
+        intro c; unfold Heap.upd; split
+        · rename_i hcm; rw [hkd, hcm]
+        · rfl
+      obtain ⟨e1, e2⟩ := hb.same pm (ConsP_kids pm hkids' rest m hc) hmp
+      exact ⟨by rw [e1], e2⟩
     · intro c h0 h1' n
       have hcm : c ≠ m := by intro e; subst e; rw [hm] at h0; cases h0
       rw [hb.mods c h0 h1' n, cellAt_upd, if_neg hcm]
@@ -526,8 +561,14 @@ theorem swap_back : ∀ (es : List (Name × PTree)) (h : Heap) (memo : Memo) (m 
       obtain ⟨sw', hhit'⟩ := hsim.done hhit
       obtain ⟨g1, gm1, outs2, hrun2, hb⟩ := swap_back rest h memo m h1 memo1 outs' hrest hm hwf hnd2
         g gm hgm hsim hmods (fun n hn => hnames n (by simpa [leafKeys] using hn)) hkids
-      exact ⟨g1, gm1, (k, .node sw') :: outs2, swapEntries_hit_intro hkg hhit' hrun2, hb.sim, hb.mods,
-        fun n hn => hb.names n (by simpa [leafKeys] using hn)⟩
+      refine ⟨g1, gm1, (k, .node sw') :: outs2, swapEntries_hit_intro hkg hhit' hrun2, hb.sim, hb.mods,
+        fun n hn => hb.names n (by simpa [leafKeys] using hn), ?_⟩
+      intro pm hc hmp
+      simp only [ConsP] at hc
+      obtain ⟨e1, e2⟩ := hb.same pm hc.2 hmp
+      have hes : es = pm c := (hc.1 c hk).1
+      have hsw : sw' = pm c := hmp c sw' hhit'
+      exact ⟨by rw [e1, hsw, hes], e2⟩
     · have hcm : c ≠ m := by intro e; subst e; rw [hmiss] at hm; cases hm
       have frc := swap_frame es h ((c, none) :: memo) c h2 memo2 sw hchild (by simp [find_cons])
       have hm2 : Memo.find ((c, some sw) :: memo2) m = some none := by
@@ -584,7 +625,22 @@ theorem swap_back : ∀ (es : List (Name × PTree)) (h : Heap) (memo : Memo) (m 
         (by intro x; rw [frc2.kids, frc.kids]; exact hkids x)
       obtain ⟨g1, gm1, outs2, hrunr, hbr⟩ := ihr
       have frr2 := swap_frame outs' g2 ((c, some sw') :: gm2) m g1 gm1 outs2 hrunr hgm2
-      refine ⟨g1, gm1, (k, .node sw') :: outs2, swapEntries_fresh_intro hkg hgmc hrunc hrunr, hbr.sim, ?_, ?_⟩
+      refine ⟨g1, gm1, (k, .node sw') :: outs2, swapEntries_fresh_intro hkg hgmc hrunc hrunr, hbr.sim, ?_, ?_, ?_⟩
+      rotate_right
+      · intro pm hc hmp
+        simp only [ConsP] at hc
+        obtain ⟨hes, hcc⟩ := hc.1 c hk
+        obtain ⟨e1, e2⟩ := hbc.same pm hcc (by
+          intro x sw0 hx
+          have hxc : c ≠ x := by intro e; subst e; simp [find_cons] at hx
+          rw [find_cons, if_neg hxc] at hx
+          exact hmp x sw0 hx)
+        obtain ⟨e3, e4⟩ := hbr.same pm (ConsP_kids pm frc.kids rest m hc.2) (by
+          intro x sw0 hx
+          by_cases hxc : c = x
+          · subst hxc; simp [find_cons] at hx; subst hx; rw [e1]; exact hes
+          · rw [find_cons, if_neg hxc] at hx; exact e2 x sw0 hx)
+        exact ⟨by rw [e3, e1], e4⟩
       · intro x h0 h1' n
         have hxm : x ≠ m := by intro e; subst e; rw [hm] at h0; cases h0
         by_cases hxc : c = x
